@@ -164,6 +164,12 @@ func RunImpl(src string, cfg *Config) *ImplRun {
 		L.Push(ud)
 		return 1
 	}))
+	L.SetGlobal("hosth", L.NewFunction(func(L *lua.LState) int {
+		// a host function usable as a metamethod handler: records its
+		// arguments and returns them all
+		r.Trace = append(r.Trace, "hosth:"+r.canonArgs(L, 1))
+		return L.GetTop()
+	}))
 	L.SetGlobal("snap", L.NewFunction(func(L *lua.LState) int {
 		r.Snaps = append(r.Snaps, lua.VerifSnapshot(L))
 		return 0
@@ -309,6 +315,10 @@ func RunModel(c *last.Chunk, cfg *Config) *ModelRun {
 			ud.Meta = mt
 		}
 		return []lref.Value{ud}
+	})
+	in.Register("hosth", func(in *lref.Interp, a []lref.Value) []lref.Value {
+		in.Emit("hosth:" + in.CanonList(a))
+		return append([]lref.Value(nil), a...)
 	})
 	in.Register("hostcall", func(in *lref.Interp, a []lref.Value) []lref.Value {
 		if len(a) == 0 {
